@@ -23,9 +23,10 @@ PROPS["C01"]["level_text"] += " " + (
     "BrotliOptimizeHistograms (run by encode.rs between builder and writer; model optimizeHistograms over C17's BrotliOptimizeHuffmanCountsForRle, tied by the `opt=` field of the build "
     "lines: the three histogram digests behind the real BrotliOptimizeHistograms(64, mb)): optimize_histograms_keeps_wellformed - whenever it returns, only the histograms changed, every total "
     "grew by at most 2*length+1 (optimize_sum: the smoothing loop replaces a stride by its rounded mean, the zero-filling loop adds at most one per cell), entries at or above num_distance_codes "
-    "are untouched, every non-zero count stays non-zero (C17 optimize_keep), so MBOK and the three Covers survive (rewritten_histograms_wellformed); greedy_optimized_roundtrip_partial - builder, "
-    "then whatever BrotliOptimizeHistograms(alphabet_size, mb) returns, then BrotliStoreMetaBlock reads back under the general RFC reader (partial only in that the totality of "
-    "BrotliOptimizeHistograms is not proved)."
+    "are untouched, every non-zero count stays non-zero (C17 optimize_keep), so MBOK and the three Covers survive (rewritten_histograms_wellformed); optimize_histograms_total - "
+    "BrotliOptimizeHistograms always returns on such a split (none of the six loops of BrotliOptimizeHuffmanCountsForRle leaves the histogram or the 704-byte good_for_rle buffer); "
+    "greedy_optimized_roundtrip - the pipeline of encode.rs at quality 4..9: BrotliBuildMetaBlockGreedy, BrotliOptimizeHistograms(alphabet_size, mb), BrotliStoreMetaBlock - none of the three "
+    "panics and the general RFC reader reads the bits back to what replayCommands produces from the commands."
 )
 PROPS["C01"]["level_note"] += " " + (
     "Greedy builder: one Lean definition covers BlockSplitter and ContextBlockSplitter (the four places where the two Rust functions differ are explicit `if plain`); "
@@ -53,8 +54,8 @@ PROPS["C01"]["assumptions"] = [
     ("third module: the MetaBlockSplit handed to BrotliStoreMetaBlock is well formed (MBOK + Covers: first block type 0, types < num_types <= 256, block lengths 1..2^24 covering the symbol "
      "count of the category, num_types = 1 => one block, context map entries < number of histograms <= 256, every histogram covers the symbols emitted under its cluster, histogram totals <= 2^25): "
      "PROVED for the split BrotliBuildMetaBlockGreedy returns (quality 4..9; BV.Props.C01Greedy.greedy_split_wellformed, composed with the writer in greedy_metablock_roundtrip); and preserved by "
-     "the pass of BrotliOptimizeHistograms that encode.rs runs between builder and writer (optimize_histograms_keeps_wellformed, greedy_optimized_roundtrip_partial; that BrotliOptimizeHistograms "
-     "always returns - no index out of range in its loops - is not proved, only exercised); still an assumption for quality 10/11 (BrotliBuildMetaBlock = BrotliSplitBlock + cluster.rs, not "
+     "the pass of BrotliOptimizeHistograms that encode.rs runs between builder and writer (optimize_histograms_total, optimize_histograms_keeps_wellformed, "
+     "greedy_optimized_roundtrip); still an assumption for quality 10/11 (BrotliBuildMetaBlock = BrotliSplitBlock + cluster.rs, not "
      "modelled; exercised with the real builder on every run)")
     if a.startswith("third module: the MetaBlockSplit handed to BrotliStoreMetaBlock is well formed") else a
     for a in PROPS["C01"]["assumptions"]
